@@ -38,7 +38,7 @@ SPEC("pane.util", "KeyCache.__call__",
                lambda self, args, kwargs: forall_val(lambda k: implies(mhas(self.cache, k), mget(self.cache, k) is not self._missing)),
                lambda self, args, kwargs: refs_inv(self)],
      assumes=[lambda self, args, kwargs: hashable(callv(self.key_f, args, kwargs))],
-     note="LRU mode (maxsize given) is not under contract: not used by make_converter; thread interleavings are outside this technique",
+     note="LRU mode (maxsize given): see the bounded contract KeyCache.__call__.lru.bounded; thread interleavings are outside this technique",
      ensures=[(lambda self, args, kwargs, result: result == callv(self.inner_f, args, kwargs), ["C10"], "transparent"),
               (lambda self, args, kwargs, result: cache_inv(self), ["C10"], "history-invariant"),
               # retention: the arguments behind every key stay referenced from the cache, so an id()-based key cannot be
@@ -62,3 +62,18 @@ LEMMA("make_converter_key_identifies_arguments",
 # the arguments behind id()-based keys). The bounded (LRU) mode keeps no references, so id() keys could be re-issued.
 SPEC("pane.convert", "make_converter@decorators", frame=[],
      decorators=[("key_cache(_make_converter_key_f)", ["C10"])])
+
+
+# ---- KeyCache.__call__, LRU mode (maxsize given), BOUNDED: every operation sequence of length <= 5 over 4 keys, maxsize 0..3 ----------
+# (the linked list is a cyclic structure of aliased Python lists: outside the symbolic engine's heap model, so this mode is decided by
+#  the run-time contract over an enumerated domain and is labelled bounded, never proved)
+SPEC("pane.util", "KeyCache.__call__.lru.bounded", bounded=True,
+     ensures=[(lambda maxsize, ops, result: [r for (r, _c, _k, _l) in result] == [('r', x) for x in ops], ["C10"], "transparent"),
+              # representation invariant the next call relies on: the recency list, walked from the root, closes on the root, every link is
+              # the one the table holds for its key (back pointers mirror forward ones), and it holds exactly the cached keys.
+              # (WHICH keys are retained - LRU order, the size bound - is deliberately not a clause: C10 states transparency only, and a
+              #  change of eviction policy must not raise an alarm)
+              (lambda maxsize, ops, result: all(sorted(l) == sorted(k) and len(l) == len(set(l)) for (_r, _c, k, l) in result), ["C10"], "list-well-formed")],
+     no_raise=["C10"],
+     note="bounded: LRU mode of KeyCache over every operation sequence of length <= 5 on 4 keys with maxsize in {0,1,2,3} (the cyclic recency "
+          "list of aliased Python lists is outside the symbolic heap model); single-threaded - interleavings are outside this technique")
